@@ -103,6 +103,6 @@ def nontrivial(case, result):
 
 
 def prebuild(root):
-    """translator: regenerate coq/Generated/Glue.v from the one-line projection functions of /repo/src (checked_shl .. the
-    inherent shl/shr; proved equal to the hand-written model in Proofs/GlueTie.v)"""
-    return run_translator(root, "rs2v_glue.py")
+    """translators: coq/Generated/Glue.v (one-line projection functions; Proofs/GlueTie.v) and coq/Generated/Loops.v (loop
+    functions of /repo/src/buint; Proofs/LoopsTieC05.v), each proved equal to the hand-written model"""
+    return run_translator(root, "rs2v_glue.py") or run_translator(root, "rs2v_loops.py")
